@@ -323,6 +323,8 @@ func checkC06(p *Program, r *Report) {
 		}
 	}
 	checkLostCarry(p, r, "C06.carry", conv)
+	r.Explanation += " (sign-extend) no quantity decoded from bytes is assembled in a signed type it can fill and then widened (the stored step of the old layouts is 16 bits: a step of 32768 words and more must not come out negative)."
+	checkSignExtend(p, r, "C06.sign-extend")
 }
 
 // underUnmarshal: the functions reachable from (*SlimTrie).Unmarshal, sorted.
@@ -436,6 +438,7 @@ func init() {
 		controlMaskTrim(fx, r, "C06.trim")
 		controlLostCarry(fx, r, "C06.carry")
 		controlArrayBound(fx, r, "C06.array-bound")
+		controlSignExtend(fx, r, "C06.sign-extend")
 	}
 }
 
